@@ -1166,9 +1166,12 @@ def to_coq(case, obs):
     untyped = clist([cpair(cstr(p["name"]), _cdkind(_dkind(p["default"]))) for p in case["params"]
                      if case["mode"] == "cf" and p["ty"] == "none" and p["default"] is not None and not p.get("cann")])
     inferred = clist([cpair(cstr(n), _city(t)) for n, t in obs.get("inferred", [])])
+    byname = {p["name"]: p for p in case["params"]}
+    tinfo = clist([cpair(cstr(n), f"({cbool(byname[n]['ty'] != 'none')}, {cbool(bool(byname[n].get('cann')))}, "
+                                  f"{cbool(byname[n].get('cann_kind') == 'same')})") for n, _ in obs.get("ftype_ok", [])])
     return (f"mkcase {cbool(case['mode'] == 'main')} {clist(ps)} {_res_bind(obs['expected'])} "
             f"{clist([cstr(v) for v in obs['xpos']])} {_kv(obs['xkw'])} {reqs} {sess} {flds} {call} {_res_bind(obs['result'])} "
-            f"{untyped} {inferred} {pair} {clist([cpair(cstr(n), cbool(b)) for n, b in obs.get('ftype_ok', [])])} "
+            f"{untyped} {inferred} {pair} {clist([cpair(cstr(n), cbool(b)) for n, b in obs.get('ftype_ok', [])])} {tinfo} "
             f"{clist([cstr(n) for n in obs.get('aliased', [])])}")
 
 
